@@ -8,9 +8,12 @@ import (
 	"context"
 	"fmt"
 	"os"
+	"regexp"
 	"runtime"
+	"strings"
 	"sync"
 	"testing"
+	"time"
 
 	gosm "github.com/ctessum/geom/encoding/osm"
 	"pgregory.net/rapid"
@@ -280,6 +283,23 @@ func gen(t *rapid.T) Case {
 		c.Filter = &f
 		c.KeepTags = true
 	}
+	if rapid.IntRange(0, 3).Draw(t, "extras") == 1 {
+		// top-level elements that are not nodes, ways or relations; a changeset (a type extract does not know) only in
+		// the engines without the owned scheduler, whose model of the pool assumes that every worker finishes its object
+		kinds := []string{"bounds", "bounds", "bounds", "note", "user"}
+		if c.Engine == "plain" || c.Engine == "stress" {
+			kinds = append(kinds, "changeset", "changeset", "changeset")
+		}
+		for i, n := 0, rapid.IntRange(1, 4).Draw(t, "nextras"); i < n; i++ {
+			k := rapid.SampledFrom(kinds).Draw(t, "extra")
+			if i > 0 && rapid.Bool().Draw(t, "sameextra") {
+				k = c.Doc.Extras[i-1] // several of a kind (as many as there are workers)
+			}
+			pos := rapid.IntRange(0, len(c.Doc.Order)).Draw(t, "extrapos")
+			c.Doc.Order = append(c.Doc.Order[:pos], append([]Elem{{"x", len(c.Doc.Extras)}}, c.Doc.Order[pos:]...)...)
+			c.Doc.Extras = append(c.Doc.Extras, k)
+		}
+	}
 	if idk := rapid.SampledFrom([]string{"", "", "", "negative", "huge40", "huge44", "huge62", "mixed"}).Draw(t, "idkind"); idk != "" {
 		c.IDKind = idk
 		base := map[string]int64{"negative": 0, "huge40": 1 << 40, "huge44": 1<<44 + 1, "huge62": 1<<62 + 11}
@@ -331,6 +351,66 @@ func gen(t *rapid.T) Case {
 
 var procMu sync.Mutex
 
+// errStuck: extract can never return (decided from the goroutine states, not from a time limit).
+var errStuck = fmt.Errorf("ExtractXML can never return: its reading loop is blocked sending an object to the pool and every worker of the pool has exited")
+
+var goroutineHeader = regexp.MustCompile(`(?m)^goroutine (\d+) \[([^\]]*)\]:$`)
+
+// extractWatched runs ExtractXML in a goroutine of its own and watches it: when the goroutine is blocked in a channel
+// send and no goroutine created by it (the workers of the pool) exists any more, nothing can ever receive and the call
+// cannot return; that state is permanent and read from one stop-the-world snapshot, so looking at it late or early
+// gives the same answer. Until then the wait goes on (a slow run is not a violation).
+func extractWatched(xml []byte, keep gosm.KeepFunc, keepTags bool) (data *gosm.Data, err error) {
+	done := make(chan struct{})
+	idc := make(chan string, 1)
+	var pan interface{}
+	go func() {
+		defer close(done)
+		defer func() { pan = recover() }()
+		buf := make([]byte, 64)
+		buf = buf[:runtime.Stack(buf, false)] // "goroutine N [running]:..."
+		id := ""
+		if f := bytes.Fields(buf); len(f) >= 2 {
+			id = string(f[1])
+		}
+		idc <- id
+		data, err = gosm.ExtractXML(context.Background(), bytes.NewReader(xml), keep, keepTags)
+	}()
+	id := <-idc
+	tick := 200 * time.Millisecond
+	for {
+		select {
+		case <-done:
+			if pan != nil {
+				return nil, fmt.Errorf("ExtractXML panicked: %v", pan)
+			}
+			return data, err
+		case <-time.After(tick):
+		}
+		if tick < 5*time.Second {
+			tick *= 2
+		}
+		buf := make([]byte, 1<<20)
+		buf = buf[:runtime.Stack(buf, true)]
+		inSend, children := false, 0
+		for _, blk := range bytes.Split(buf, []byte("\n\n")) {
+			m := goroutineHeader.FindSubmatch(blk)
+			if m == nil {
+				continue
+			}
+			if string(m[1]) == id && strings.HasPrefix(string(m[2]), "chan send") {
+				inSend = true
+			}
+			if bytes.Contains(blk, []byte("in goroutine "+id+"\n")) || bytes.HasSuffix(blk, []byte("in goroutine "+id)) {
+				children++
+			}
+		}
+		if inSend && children == 0 {
+			return nil, errStuck
+		}
+	}
+}
+
 // extractWith runs one extraction under the given engine; sched returns the controller for statistics.
 func extractWith(c Case, xml []byte) (data *gosm.Data, ctl *controller, err error) {
 	procMu.Lock()
@@ -340,7 +420,7 @@ func extractWith(c Case, xml []byte) (data *gosm.Data, ctl *controller, err erro
 	keep := c.Keep.Func()
 	if c.Engine != "sched" {
 		gosm.VerifHook = nil
-		data, err = gosm.ExtractXML(context.Background(), bytes.NewReader(xml), keep, c.KeepTags)
+		data, err = extractWatched(xml, keep, c.KeepTags)
 		return
 	}
 	ctl = &controller{events: make(chan *park), nprocs: c.Procs, choices: c.Choices, policy: c.Policy}
@@ -397,6 +477,44 @@ func run(c Case) (v vkit.Verdict) {
 	n := 1
 	if c.Engine == "plain" || c.Engine == "stress" {
 		n = c.Repeat
+	}
+	for _, k := range []string{"bounds", "note", "user", "changeset"} {
+		if c.Doc.HasExtra(k) {
+			v.Class("document_with_" + k)
+		}
+	}
+	if c.Doc.HasExtra("changeset") {
+		// a type of element extract does not know: it may refuse the document, but then for every number of workers, and
+		// it has to return. The same document at 1 worker, at as many workers as the document has changesets (all of
+		// them can die), and at the drawn number.
+		nch := 0
+		for _, e := range c.Doc.Extras {
+			if e == "changeset" {
+				nch++
+			}
+		}
+		refused, accepted := 0, 0
+		for _, procs := range []int{1, nch, c.Procs} {
+			cc := c
+			cc.Procs = procs
+			_, _, err := extractWith(cc, xml)
+			if err == errStuck {
+				return v.Fail("ExtractXML (%s, %d workers) on a document with %d changeset element(s) among %d elements: %v", c.Engine, procs, nch, len(c.Doc.Order), err)
+			}
+			if err != nil {
+				refused++
+			} else {
+				accepted++
+			}
+		}
+		if refused > 0 && accepted > 0 {
+			return v.Fail("ExtractXML on a document with %d changeset element(s): refused or not depending on GOMAXPROCS (1, %d, %d)", nch, nch, c.Procs)
+		}
+		v.NonTrivial = true
+		if refused > 0 {
+			v.Class("changeset_document_refused")
+			return v
+		}
 	}
 	var data *gosm.Data
 	for i := 0; i < n; i++ {
@@ -495,7 +613,7 @@ func TestProp(t *testing.T) {
 		Rule: "rapid: OSM XML documents of 0-25 nodes on a half-unit grid, 0-12 ways (1-6 node refs, shared nodes, closed ways), 0-8 relations (node/way/relation members, relations of " +
 			"relations incl. self and mutual cycles), tags from a 3x3 alphabet, 5% with dangling references; element order conventional, reversed, a drawn permutation, or every way directly after " +
 			"the last node it references; keep = KeepTags (drawn key/value sets incl. empty value lists), KeepBounds (drawn box; objects inside, outside, on the border), KeepAll; keepTags on/off; " +
-			"1-8 workers (GOMAXPROCS); in 5 cases of 8 all ids and references are mapped to negative values or beyond 2^40 / 2^44 / 2^62. Engines: (sched) the owned scheduler - the pool's workers and reading loop park at the verif hook points and inside the keep function; a drawn choice list picks " +
+			"1-8 workers (GOMAXPROCS); a quarter of the documents carry 1-4 top-level elements that are not nodes, ways or relations at drawn positions (bounds, note, user: must make no difference; changeset, plain and stress engines only: a type extract does not know - the document is run at 1 worker, at as many workers as it has changesets and at the drawn number, must be refused for all of them or none, and the call has to return: a watcher reads the goroutine states and reports 'can never return' when the reading loop is blocked in a channel send and no goroutine created by it is left); in 5 cases of 8 all ids and references are mapped to negative values or beyond 2^40 / 2^44 / 2^62. Engines: (sched) the owned scheduler - the pool's workers and reading loop park at the verif hook points and inside the keep function; a drawn choice list picks " +
 			"which enabled entity runs next, so a schedule is a replayable list of integers; (plain) no hook, 1-3 repetitions at GOMAXPROCS 1-16; (stress, 1 case in 11) no hook, 20-60 repetitions at GOMAXPROCS 2-64 of a drawn document or of a one-store-per-pass dependency chain (tagged relation -> ... -> relation -> way -> nodes listed deepest first), for interleavings between the hook points that only real threads produce; (filter) Filter(KeepTags|KeepAll) of an extraction; (pbf, thorough only, a fraction of a percent of the cases) the repository's Honolulu extract through ExtractPBF with drawn tag/bounds filters against the model fed by the same scanner's object stream. " +
 			"Oracle: sequential least-fixed-point model (selected by keep against the set itself, or referenced from the set) computed by naive iteration; id sets and payloads (coordinates, node " +
 			"lists, members, tags iff keepTags) must equal the model for every schedule and worker count; Check() nil when the document has no dangling reference; Filter result = model applied to " +
